@@ -16,15 +16,15 @@ import (
 	"crypto/tls"
 	"crypto/x509"
 	"crypto/x509/pkix"
-	"math/big"
-	"sync"
 	"errors"
 	"fmt"
 	"hash/adler32"
 	"io"
+	"math/big"
 	"runtime/debug"
 	"strconv"
 	"strings"
+	"sync"
 	"time"
 
 	mail "github.com/wneessen/go-mail"
@@ -65,12 +65,12 @@ type Case struct {
 	// what the server advertises in the EHLO reply inside TLS (may be empty; only meaningful when TLS != 'N').
 	TLS     byte
 	CapsTLS []string
-	Caps   []string
-	Ret    string // DSN MAIL RET option ("" = unset)
-	Notify string // DSN RCPT NOTIFY options, comma separated ("" = unset)
-	NoNoop bool
-	Script []smtpx.Decision
-	Msgs   []MsgSpec
+	Caps    []string
+	Ret     string // DSN MAIL RET option ("" = unset)
+	Notify  string // DSN RCPT NOTIFY options, comma separated ("" = unset)
+	NoNoop  bool
+	Script  []smtpx.Decision
+	Msgs    []MsgSpec
 }
 
 func (s MsgSpec) String() string {
@@ -406,7 +406,7 @@ func RunCase(c *Case) *Result {
 		srv.CapsAfterTLS = append([]string{}, c.CapsTLS...) // non-nil also when empty
 	}
 	opts := []mail.Option{mail.WithTLSPolicy(policy), mail.WithTLSConfig(clientTLS), mail.WithDialContextFunc(d.Dial),
-		mail.WithTimeout(1500 * time.Millisecond), mail.WithHELO(HeloName)}
+		mail.WithTimeout(20 * time.Second), mail.WithHELO(HeloName)} // no script of this engine stalls; the timeout only has to survive a loaded machine
 	if c.Ret != "" {
 		opts = append(opts, mail.WithDSNMailReturnType(mail.DSNMailReturnOption(c.Ret)))
 	}
